@@ -473,3 +473,62 @@ func scenarioStaleBlockHashCache(attack bool, verbose bool) (n *bftsim.Net, stor
 	}
 	return n, story, nil
 }
+
+// scenarioPoisonedBuildHeight (liveness, C15): the root-chain build height of a proposal travels in an UNSIGNED field of the
+// leader's messages. The Byzantine leader runs its round honestly up to PRECOMMIT, but its PRECOMMIT message names build height 0
+// (the PROPOSE message, which every replica validated, named the right one), and it withholds COMMIT. The replicas lock. From then
+// on only correct leaders are heard: the lock must be re-proposed under the build height the replicas VALIDATED - if they took it
+// from the PRECOMMIT message, the re-proposal is built "before the committee last changed" and refused by everybody, every round.
+func scenarioPoisonedBuildHeight(attack bool, verbose bool) (n *bftsim.Net, story []string, err error) {
+	n, err = bftsim.New([]uint64{100, 100, 100, 100}, 7)
+	if err != nil {
+		return
+	}
+	n.Verbose = verbose
+	for _, r := range n.Reps {
+		r.Ctl.SetLastRootUpdated(5)
+	}
+	s := &script{n: n}
+	say := func(f string, a ...any) { story = append(story, fmt.Sprintf(f, a...)) }
+	ra, ok := s.electByz(80)
+	if !ok {
+		return n, story, fmt.Errorf("byzantine replica never elected")
+	}
+	s.tick(nil) // PROPOSE: the leader's proposal (right build height) reaches everybody
+	s.tick(nil) // PROPOSE_VOTE: validated, votes sent
+	for _, i := range s.live() {
+		s.n.Step(i) // PRECOMMIT: the leader aggregates and sends
+	}
+	rewritten := 0
+	for _, e := range s.n.Bag {
+		if e.From == byz && e.Phase == bft.Precommit && !e.Replica && attack {
+			m := e.Decode()
+			m.RcBuildHeight = 0
+			m.Signature = nil
+			if m.Sign(s.n.Keys[byz].Priv) == nil {
+				if bz, e2 := lib.Marshal(m); e2 == nil {
+					e.Bytes = bz
+					rewritten++
+				}
+			}
+		}
+	}
+	s.n.Flush(nil)
+	for _, i := range s.live() {
+		s.n.Step(i) // PRECOMMIT_VOTE: the replicas lock
+	}
+	s.n.Flush(dropAll) // the votes go nowhere: no COMMIT
+	say("round %d: PRECOMMIT with build height 0 sent to %d replicas, COMMIT withheld; locks:%s", ra, rewritten, s.locks())
+	s.failRound()
+	// from now on the Byzantine validator is silent and nothing is lost
+	for k := 0; k < 8 && len(n.Commits) == 0; k++ {
+		if !s.toElection() {
+			break
+		}
+		for j := 0; j < 9; j++ {
+			s.tick(func(e *bftsim.Env) bool { return e.From != byz })
+		}
+	}
+	say("after up to eight rounds among correct replicas: %d commits", len(n.Commits))
+	return n, story, nil
+}
